@@ -115,3 +115,130 @@ Proof.
   - apply Nat.leb_le. assert (nest (nestk n) = n) as ->; auto.
     clear H. induction n; simpl; auto. rewrite IHn. lia.
 Qed.
+
+(* ------------------------------------------------------------------ *)
+(* Purity of compare (needs only the depth bound, no well-formedness)   *)
+(* ------------------------------------------------------------------ *)
+Fixpoint all2 {A} (r : A -> A -> bool) (xs ys : list A) : bool :=
+  match xs, ys with
+  | [], _ => true
+  | _, [] => true
+  | x :: xs', y :: ys' => r x y && all2 r xs' ys'
+  end.
+
+Definition mapall (r : val -> val -> bool) (m2 m1 : list (val * val)) : bool :=
+  forallb (fun p => match lookup_kv (fst p) m2 with Some v2 => r (snd p) v2 | None => false end) m1.
+
+Definition pcspec (r : val -> val -> bool) (a b : val) : bool :=
+  if negb (Z.eqb (tyrank a) (tyrank b)) then false else
+  match view_of a, view_of b with
+  | WLeaf, WLeaf => leq a b
+  | WAssoc k1 v1, WAssoc k2 v2 => r k1 k2 && r v1 v2
+  | WArr xs, WArr ys => (length xs =? length ys) && all2 r xs ys
+  | WMap m1, WMap m2 => (length m1 =? length m2) && mapall r m2 m1
+  | _, _ => false
+  end.
+
+Lemma rall2_pure {A} (rec : A -> A -> res bool) (r : A -> A -> bool) :
+  forall xs ys, (forall x y, In x xs -> In y ys -> rec x y = R (r x y)) ->
+  rall2 rec xs ys = R (all2 r xs ys).
+Proof.
+  induction xs as [|x xs IH]; destruct ys as [|y ys]; simpl; intros H; auto.
+  rewrite H by (left; auto). rewrite IH by (intros; apply H; right; auto).
+  destruct (r x y); reflexivity.
+Qed.
+
+Lemma rmapall_pure (rec : val -> val -> res bool) (r : val -> val -> bool) :
+  forall m2 m1, (forall p q, In p m1 -> In q m2 -> rec (snd p) (snd q) = R (r (snd p) (snd q))) ->
+  rmapall rec m2 m1 = R (mapall r m2 m1).
+Proof.
+  intros m2. induction m1 as [|p m1 IH]; simpl; intros H; auto.
+  destruct (lookup_kv (fst p) m2) as [v2|] eqn:L; auto.
+  destruct (lookup_in _ _ _ L) as [k' [L' _]].
+  pose proof (H p (k', v2) (or_introl eq_refl) L') as Hp. simpl in Hp. rewrite Hp.
+  rewrite IH by (intros; apply H; auto; right; auto).
+  destruct (r (snd p) v2); reflexivity.
+Qed.
+
+Lemma bthen_R : forall a b, bthen (R a) (R b) = R (a && b).
+Proof. intros [] b; reflexivity. Qed.
+
+Lemma cspec_pure : forall M d rec r a b,
+  nest a + d <= M -> nest b + d <= M ->
+  (forall d' x y, In x (elems a) -> In y (elems b) ->
+     nest x + d' <= M -> nest y + d' <= M -> rec d' x y = R (r x y)) ->
+  cspec M d rec a b = R (pcspec r a b).
+Proof.
+  intros M d rec r a b Na Nb Hrec. unfold cspec, pcspec.
+  destruct (negb (Z.eqb (tyrank a) (tyrank b))); [reflexivity|].
+  pose proof (view_nest a) as Sa. pose proof (view_nest b) as Sb.
+  pose proof (elems_nest a) as Ea. pose proof (elems_nest b) as Eb.
+  unfold elems in *.
+  destruct (view_of a) eqn:Va, (view_of b) eqn:Vb; try reflexivity; simpl in Sa, Sb, Ea, Eb.
+  - pose proof (Ea k ltac:(simpl; auto)). pose proof (Ea v ltac:(simpl; auto)).
+    pose proof (Eb k0 ltac:(simpl; auto)). pose proof (Eb v0 ltac:(simpl; auto)).
+    rewrite (Hrec d k k0), (Hrec d v v0); simpl; auto; try lia.
+    apply bthen_R.
+  - replace (d =? M) with false by (symmetry; apply Nat.eqb_neq; lia).
+    destruct (length l =? length l0); simpl; [|reflexivity].
+    apply rall2_pure. intros x y Hx Hy.
+    specialize (Ea x Hx). specialize (Eb y Hy). apply Hrec; simpl; auto; lia.
+  - replace (d =? M) with false by (symmetry; apply Nat.eqb_neq; lia).
+    destruct (length m =? length m0); simpl; [|reflexivity].
+    apply rmapall_pure. intros p q Hp Hq.
+    assert (P2 : In (snd p) (map fst m ++ map snd m)) by (apply in_or_app; right; apply in_map; auto).
+    assert (Q2 : In (snd q) (map fst m0 ++ map snd m0)) by (apply in_or_app; right; apply in_map; auto).
+    pose proof (Ea _ P2). pose proof (Eb _ Q2). apply Hrec; simpl; auto; lia.
+Qed.
+
+Definition unresb (r : res bool) : bool := match r with R c => c | _ => false end.
+Definition pcomp (a b : val) : bool :=
+  unresb (compare (nest a + nest b) (fuel_for a b) 0 a b).
+
+Lemma compare_pure_aux : forall n a b, wsz a + wsz b <= n ->
+  (forall M d f, nest a + d <= M -> nest b + d <= M -> wsz a + wsz b < f ->
+     compare M f d a b = R (pcspec pcomp a b)) /\
+  (forall M d f, nest a + d <= M -> nest b + d <= M -> wsz a + wsz b < f ->
+     compare M f d a b = R (pcomp a b)).
+Proof.
+  induction n as [|n IH]; intros a b Hn.
+  { pose proof (wsz_pos a). lia. }
+  assert (E : forall M d f, nest a + d <= M -> nest b + d <= M -> wsz a + wsz b < f ->
+     compare M f d a b = R (pcspec pcomp a b)).
+  { intros M d f Na Nb Hf. destruct f as [|f]; [lia|].
+    rewrite compare_unfold. apply cspec_pure; auto.
+    intros d' x y Hx Hy Nx Ny.
+    pose proof (elems_size _ _ Hx). pose proof (elems_size _ _ Hy).
+    destruct (IH x y ltac:(lia)) as [_ H2]. apply H2; auto. lia. }
+  split; auto.
+  intros M d f Na Nb Hf. rewrite E; auto.
+  assert (pcomp a b = pcspec pcomp a b) as ->; auto.
+  unfold pcomp at 1. rewrite E; auto; try lia.
+  unfold fuel_for. pose proof (wsz_le a). pose proof (wsz_le b). lia.
+Qed.
+
+(* within the depth limit compareValues returns the pure equality: never a panic, never
+   out of fuel, independent of fuel, depth and maximum — for arbitrary values *)
+Theorem compare_pure : forall M f d a b,
+  nest a + d <= M -> nest b + d <= M -> fuel_for a b <= f ->
+  compare M f d a b = R (pcomp a b).
+Proof.
+  intros M f d a b Na Nb Hf.
+  destruct (compare_pure_aux _ a b (le_n _)) as [_ H]. apply H; auto.
+  unfold fuel_for in Hf. pose proof (wsz_le a). pose proof (wsz_le b). lia.
+Qed.
+
+Theorem compare0_pure : forall M a b, nest a <= M -> nest b <= M -> compare0 M a b = R (pcomp a b).
+Proof. intros. unfold compare0. apply compare_pure; auto; lia. Qed.
+
+Lemma Rb_inj : forall x y : bool, @R bool x = R y -> x = y.
+Proof. intros x y H. injection H. auto. Qed.
+
+Lemma pcomp_eq : forall a b, pcomp a b = pcspec pcomp a b.
+Proof.
+  intros a b.
+  destruct (compare_pure_aux _ a b (le_n _)) as [H1 H2].
+  apply Rb_inj.
+  rewrite <- (H1 (nest a + nest b) 0 (fuel_for a b)), <- (H2 (nest a + nest b) 0 (fuel_for a b));
+    auto; try lia; unfold fuel_for; pose proof (wsz_le a); pose proof (wsz_le b); lia.
+Qed.
